@@ -89,10 +89,20 @@ class RobotsTxtChecker(object):
 
                         return
 
+                    response = None
+
                     try:
                         response = yield from session.start()
                         yield from session.download(file=file)
                     except ProtocolError:
+                        if response is not None and \
+                                500 <= response.status_code <= 599:
+                            # The header said server error; that the body
+                            # could not be read does not make it a missing
+                            # file.
+                            raise ServerError(
+                                'Server returned error for robots.txt.')
+
                         self._accept_as_blank(url_info)
 
                         return
